@@ -379,7 +379,7 @@ std::string render(const FileSpec &f, Offsets *off)
     }
     for (auto &u : f.units) {
         if (!u.imported) {
-            s += "  <units name=\"" + u.name + "\">\n";
+            s += "  <units name=\"" + u.name + "\"" + (u.flaw != 0 ? " bogus_attribute=\"1\"" : "") + ">\n";
             for (auto &c : u.children) {
                 s += "    <unit units=\"" + c + "\"/>\n";
             }
@@ -391,9 +391,11 @@ std::string render(const FileSpec &f, Offsets *off)
         if (c.imported) {
             continue;
         }
-        s += "  <component name=\"" + c.name + "\">\n";
+        s += "  <component name=\"" + c.name + "\"" + (c.flaw == 1 || (c.flaw != 0 && c.vars.empty()) ? " bogus_attribute=\"1\"" : "") + ">\n";
+        bool flawVariable = c.flaw == 2;
         for (auto &v : c.vars) {
-            s += "    <variable name=\"" + v.name + "\" units=\"" + v.units + "\" interface=\"public\"/>\n";
+            s += "    <variable name=\"" + v.name + "\" units=\"" + v.units + "\" interface=\"public\"" + (flawVariable ? " bogus_attribute=\"1\"" : "") + "/>\n";
+            flawVariable = false;
         }
         if (!c.cn.empty() && !c.vars.empty()) {
             s += "    <math xmlns=\"http://www.w3.org/1998/Math/MathML\">\n";
@@ -443,7 +445,7 @@ std::string render11(const FileSpec &f)
     }
     for (auto &u : f.units) {
         if (!u.imported) {
-            s += "  <units name=\"" + u.name + "\">\n";
+            s += "  <units name=\"" + u.name + "\"" + (u.flaw != 0 ? " bogus_attribute=\"1\"" : "") + ">\n";
             for (auto &c : u.children) {
                 s += "    <unit units=\"" + c + "\"/>\n";
             }
@@ -454,9 +456,11 @@ std::string render11(const FileSpec &f)
         if (c.imported) {
             continue;
         }
-        s += "  <component name=\"" + c.name + "\">\n";
+        s += "  <component name=\"" + c.name + "\"" + (c.flaw == 1 || (c.flaw != 0 && c.vars.empty()) ? " bogus_attribute=\"1\"" : "") + ">\n";
+        bool flawVariable = c.flaw == 2;
         for (auto &v : c.vars) {
-            s += "    <variable name=\"" + v.name + "\" units=\"" + v.units + "\" public_interface=\"out\"/>\n";
+            s += "    <variable name=\"" + v.name + "\" units=\"" + v.units + "\" public_interface=\"out\"" + (flawVariable ? " bogus_attribute=\"1\"" : "") + "/>\n";
+            flawVariable = false;
         }
         if (!c.cn.empty() && !c.vars.empty()) {
             s += "    <math xmlns=\"http://www.w3.org/1998/Math/MathML\">\n";
@@ -649,6 +653,9 @@ struct Resolver
             } else if (g->findUnits(u.ref) < 0) {
                 fail(Verdict::UNSAT, "units " + u.ref + " not found in " + g->path);
                 ok = false;
+            } else if (g->units[size_t(g->findUnits(u.ref))].flaw != 0) {
+                fail(Verdict::UNSAT, "units " + u.ref + " in " + g->path + " has a parser error of its own");
+                ok = false;
             } else {
                 FileSpec copy = *g;
                 FileScope scope(*this, copy.path);
@@ -696,6 +703,9 @@ struct Resolver
                 int ti = g->findComp(c.ref);
                 if (ti < 0) {
                     fail(Verdict::UNSAT, "component " + c.ref + " not found in " + g->path);
+                    ok = false;
+                } else if (g->comps[size_t(ti)].flaw != 0) {
+                    fail(Verdict::UNSAT, "component " + c.ref + " in " + g->path + " has a parser error of its own");
                     ok = false;
                 } else {
                     FileSpec copy = *g;
